@@ -1,7 +1,11 @@
 //! One spec per property.
 use crate::engine::{PropSpec, Tier};
 
+pub mod bdd;
+pub mod counts;
+pub mod nogood;
 pub mod sem;
+pub mod stream;
 
 pub fn spec(id: &str, tier: Tier) -> Option<PropSpec> {
     Some(match id {
@@ -10,6 +14,12 @@ pub fn spec(id: &str, tier: Tier) -> Option<PropSpec> {
         "C03" => sem::c03(tier),
         "C04" => sem::c04(tier),
         "C05" => sem::c05(tier),
+        "C06" => bdd::c06(tier),
+        "C07" => bdd::c07(tier),
+        "C13" => counts::c13(tier),
+        "C18" => nogood::c18(tier),
+        "C19" => stream::c19(tier),
+        "C20" => stream::c20(tier),
         _ => return None,
     })
 }
